@@ -16,20 +16,26 @@ fn hash_dec(parts: &[&Integer]) -> Integer {
 
 /// Fiat-Shamir challenges the recipient can recompute from public data
 fn challenges(b: &Bundle) -> Vec<(String, Integer)> {
-    let mut out: Vec<(String, Integer)> = vec![];
+    challenges_scoped(b).into_iter().map(|(a, c, _)| (a, c)).collect()
+}
+
+/// (label, challenge, JSON path of the object whose responses it multiplies)
+fn challenges_scoped(b: &Bundle) -> Vec<(String, Integer, String)> {
+    let mut out: Vec<(String, Integer, String)> = vec![];
     let ls = leaves(&b.json);
     for (p, v) in &ls {
         let last = p.rsplit('/').next().unwrap();
+        let parent = p.rsplit_once('/').map(|x| x.0.to_string()).unwrap_or_default();
         if last == "challenge" {
-            out.push((format!("explicit:{}", path_class(p)), v.clone()));
+            out.push((format!("explicit:{}", path_class(p)), v.clone(), parent.clone()));
         }
         if last == "C" {
-            out.push((format!("explicit:{}", path_class(p)), v.clone()));
-            out.push((format!("explicit-mod-2^t:{}", path_class(p)), Integer::from(v.keep_bits_ref(128))));
+            out.push((format!("explicit:{}", path_class(p)), v.clone(), parent.clone()));
+            out.push((format!("explicit-mod-2^t:{}", path_class(p)), Integer::from(v.keep_bits_ref(128)), parent));
         }
     }
     // nisp2sec objects {t, s1, s2} next to a commitment {value, ..}: c = H(g || h || commitment.value || t)
-    fn walk(v: &Value, path: String, b: &Bundle, out: &mut Vec<(String, Integer)>) {
+    fn walk(v: &Value, path: String, b: &Bundle, out: &mut Vec<(String, Integer, String)>) {
         if let Value::Object(o) = v {
             if let (Some(val), Some(com)) = (o.get("value"), o.get("commitment")) {
                 // the commitment is either a bare value or a {value, randomness} object
@@ -37,7 +43,7 @@ fn challenges(b: &Bundle) -> Vec<(String, Integer)> {
                 if let (Some(t), Some(cv)) = (val.get("t"), cvv) {
                     let (t, cv) = (leaf_to_int(t), leaf_to_int(cv));
                     for (bl, g, h) in &b.base_pairs {
-                        out.push((format!("nispTwoSecrets{}:{}", bl, path_class(&path)), hash_dec(&[g, h, &cv, &t])));
+                        out.push((format!("nispTwoSecrets{}:{}", bl, path_class(&path)), hash_dec(&[g, h, &cv, &t]), path.clone()));
                     }
                 }
             }
@@ -50,7 +56,7 @@ fn challenges(b: &Bundle) -> Vec<(String, Integer)> {
                     parts.push(&b.base_pairs[0].2);
                     parts.push(c);
                     parts.push(&t);
-                    out.push((format!("nispMultiSecrets:{}", path_class(&path)), hash_dec(&parts)));
+                    out.push((format!("nispMultiSecrets:{}", path_class(&path)), hash_dec(&parts), path.clone()));
                 }
             }
             for (k, x) in o {
@@ -98,6 +104,31 @@ fn attack(ctx: &Ctx, b: &Bundle) {
             }
         }
         ctx.count("divisions", cs.len() as u64);
+    }
+    // small secrets (a hidden attribute may be 0, 1, ..): the response divided by the challenge of its OWN
+    // sub-proof must still be at least 2^64 away, i.e. the blinding term alone exceeds c * 2^64
+    let small: Vec<&(String, Integer)> = secrets.iter().filter(|(k, x)| x.significant_bits() < 64 && !k.starts_with("derived")).collect();
+    if !small.is_empty() {
+        ctx.count("small_secrets_examined", small.len() as u64);
+        for (cn, c, scope) in challenges_scoped(b) {
+            if c == 0 {
+                continue;
+            }
+            for (p, s) in &ls {
+                let last = p.rsplit('/').next().unwrap();
+                if !p.starts_with(scope.as_str()) || last == "challenge" || last == "C" || last == "t" {
+                    continue;
+                }
+                let q = Integer::from(s / &c);
+                for (kind, x) in &small {
+                    if near(&q, x) {
+                        let cl: String = cn.split(':').next().unwrap().chars().map(|ch| if ch.is_ascii_digit() { 'i' } else { ch }).collect();
+                        found.push((path_class(p), format!("own-challenge[{}]", cl), format!("small-{}", kind)));
+                    }
+                }
+                ctx.count("divisions", 1);
+            }
+        }
     }
     // s / s'
     for (p, s) in &ls {
